@@ -785,15 +785,28 @@ func (w *world) armRandom(n int) {
 		case mode < 4: // zstd around the decompression cap
 			pad := 2048 + rng.IntN(5000)
 			dec := append(append([]byte(nil), w.ipc...), bytes.Repeat([]byte{byte(rng.IntN(3))}, pad)...)
-			st := w.zstdBody(dec, rng.IntN(2) == 0)
+			variant := rng.IntN(3)
+			st := w.zstdBody(dec, variant == 0)
+			declared := "declared-size"
+			if variant == 1 {
+				declared = "streamed-no-size"
+			}
+			if variant == 2 {
+				// Several concatenated frames, each declaring its own (small)
+				// content size: only the SUM exceeds the cap, no single frame does.
+				declared = "multi-frame-declared-sizes"
+				nf := 2 + rng.IntN(4)
+				var comp []byte
+				for f := 0; f < nf; f++ {
+					lo, hi := len(dec)*f/nf, len(dec)*(f+1)/nf
+					comp = append(comp, w.enc.EncodeAll(dec[lo:hi], nil)...)
+				}
+				st = step{kind: sBody, body: comp, enc: "zstd", encodedLen: int64(len(comp)), decodedLen: int64(len(dec))}
+			}
 			st.noCL = rng.IntN(2) == 0
 			c.MaxDecomp = st.decodedLen + int64(rng.IntN(3)) - 1
 			c.finalEncoded, c.finalDecoded = st.encodedLen, st.decodedLen
 			final = []step{st}
-			declared := "declared-size"
-			if !bytes.Equal(st.body, w.enc.EncodeAll(dec, nil)) {
-				declared = "streamed-no-size"
-			}
 			notes = append(notes, fmt.Sprintf("zstd body (%s) %d -> %d bytes, decompression cap %d", declared, st.encodedLen, st.decodedLen, c.MaxDecomp))
 			r.Class(fmt.Sprintf("decoded-vs-decompression-cap:%+d:%s", st.decodedLen-c.MaxDecomp, declared))
 		case mode < 5: // zstd bomb
@@ -886,7 +899,7 @@ func main() {
 		"rejected-cross-origin-target", "rejected-relative-target", "clean-chain-of-5-followed", "chain-longer-than-budget-refused",
 		"followed-exactly-max-redirects", "used-all-allowed-attempts", "attempts-bounded-by-maxretries-1", "fetch-succeeded-after-redirects",
 		"body-exactly-at-fetch-cap-accepted", "decoded-exactly-at-decompression-cap-accepted",
-		"body-vs-fetch-cap:+1:cl=true", "body-vs-fetch-cap:+1:cl=false", "decoded-vs-decompression-cap:+1:declared-size", "decoded-vs-decompression-cap:+1:streamed-no-size", "zstd-bomb",
+		"body-vs-fetch-cap:+1:cl=true", "body-vs-fetch-cap:+1:cl=false", "decoded-vs-decompression-cap:+1:declared-size", "decoded-vs-decompression-cap:+1:streamed-no-size", "decoded-vs-decompression-cap:+1:multi-frame-declared-sizes", "decoded-vs-decompression-cap:+0:multi-frame-declared-sizes", "zstd-bomb",
 		"error-says-fetch-cap", "error-says-decompression-cap", "error-says-redirect-limit", "error-says-rejected-by-validator",
 		"redirect-loop", "transient-failures:5", "transient-failures:0", "first-url-uppercase-scheme")
 	r.Assume("the logging RoundTripper sits directly above net/http's Transport: 'sent' = RoundTrip calls issued by the fetcher's http.Client; req.Response == nil marks the first request of an attempt (net/http sets it on redirect-following requests)")
